@@ -17,7 +17,7 @@ RULE = ("rectangular string tables (1-4 columns x 1-5 rows, 1-2 blocks, 1-3 cate
         "breaks) placed at every (row, column); serialised and parsed by the real code and by the Lean model "
         "(text compared byte for byte, parse result cell for cell); tokeniser and category/block/file readers on "
         "foreign and malformed CIF text; mapping-operation histories on the six container classes against the model "
-        "and a dict.  non-trivial = a table with an awkward value or >= 2 rows, a reader text with >= 2 tokens, "
+        "and a dict; set/delete/serialise/row_count histories on text and binary categories (cached row count).  non-trivial = a table with an awkward value or >= 2 rows, a reader text with >= 2 tokens, "
         "a history with >= 3 operations; distinct = different op lines")
 TRUSTED = ["Python str.strip/split/splitlines/partition/ljust and dict order are modelled by their documented semantics "
            "(whitespace = str.isspace, only '\\n' as line boundary inside the hypotheses)",
@@ -26,13 +26,19 @@ TRUSTED = ["Python str.strip/split/splitlines/partition/ljust and dict order are
 ASSUMPTIONS = ["values are strings over printable ASCII, tab and newline; names follow the CIF name grammar "
                "(non-empty, no blank, no '.', no quote, not starting with '_')",
                "the '_' key prefix of BinaryCIFBlock is not modelled (names not starting with '_')"]
-LEVEL_TEXT = ("Lean theorems for all single-line values: the token, the padded row, looped and single-row categories "
-              "incl. '.'/'?' masks (C06_token, C06_row, C06_table_*), every reader first-character test is neutralised by "
-              "the writer's quoting (C06_special_heads_quoted, on the tables regenerated from cif.py), lazy containers "
-              "refine an association list for every history (C06_container_refines).  Partial: multi-line values and "
-              "single-line values with both quote characters only under explicit line hypotheses "
-              "(C06_multiline_partial, C06_both_quotes_partial; the excluded classes are known findings with "
-              "_defect witnesses).  Block/file cutting is covered by the correspondence and the oracle, not by a theorem.")
+LEVEL_TEXT = ("Lean theorems, all for unbounded inputs: C06_table_looped and C06_table_single prove "
+              "CIFCategory.deserialize(serialize(t)) = t as ONE statement for every rectangular table of single-line values "
+              "(blanks, tabs, either quote character, every special first character / reserved word, empty strings; names without "
+              "blank, '.', quote) and C06_table_masks adds the '.'/'?' mask states; built from C06_token, C06_row (no SafeHead "
+              "hypothesis after the _escape fixes), C06_row_written, C06_looped_lines. C06_gen_escape / C06_special_heads_quoted "
+              "tie the quoting decision and every reader first-character test to the tables regenerated from cif.py. "
+              "C06_container_refines, C06_container_eq_refines, C06_get_parses: every history of mapping operations incl. == on the "
+              "lazily parsed containers refines a plain association list; C06_rowcount_not_stale: the cached row count never "
+              "goes stale (after two fix: commits). Partial: multi-line values and single-line values with both quote characters "
+              "only under explicit line hypotheses (C06_multiline_partial, C06_both_quotes_partial, at the category reader's "
+              "token pipeline; each excluded class has a _defect witness and is a known finding). Not a theorem: block/file cutting "
+              "(CIFBlock/CIFFile.deserialize), rows that mix multi-line values with others, the BinaryCIF '_' key prefix - "
+              "covered by the correspondence (text compared byte for byte, parse result cell for cell) and the dict/round-trip oracle.")
 LEVEL_NOTE = "text model over List Char; Python string library and numpy modelled, not verified; BinaryCIF key prefix not modelled"
 TECHNIQUE = "Lean 4 proof (induction over rows/tokens/histories, refinement) + Gen tables from ast + correspondence"
 
@@ -614,6 +620,26 @@ def history(rng, kind=None):
     return {"kind": "container/" + kind, "ops": ops}
 
 
+def rowcount_history(rng):
+    """Columns of a category replaced by longer/shorter ones between serialisations (cached _row_count)."""
+    flav = rng.choice(["t", "b"])
+    keys = rng.sample(CKEYS, rng.randint(1, 3))
+    n = rng.randint(1, 3)
+    ops = [f"rcnew {flav} " + ",".join(f"{k}={n if rng.random() < 0.85 else rng.randint(1, 3)}" for k in keys)]
+    for _ in range(rng.randint(3, 9)):
+        r = rng.random()
+        if r < 0.3:
+            ops.append("rcser")
+        elif r < 0.4:
+            ops.append("rccount")
+        elif r < 0.85:
+            ops.append(f"rcset {rng.choice(CKEYS[:4])} {rng.randint(1, 4)}")
+        else:
+            ops.append(f"rcdel {rng.choice(CKEYS[:4])}")
+    ops.append("rcser")
+    return {"kind": "rowcount/" + flav, "ops": ops}
+
+
 # ---------------------------------------------------------------- cases
 def corpus():
     out = []
@@ -625,6 +651,9 @@ def corpus():
             cols[pos[1]][1][pos[0]] = cell_of(v)
             out.append(table_case([["blk", [["cat", cols]]]], kind="table/corpus"))
     out.append({"kind": "container/bblock", "ops": ["cnew bblock a=P1,b=R2", "cdel a", "citer", "cdel a", "cdel zz", "clen"]})
+    for flav in "tb":
+        out.append({"kind": "rowcount/" + flav, "ops": [f"rcnew {flav} a=2", "rcser", "rcset a 3", "rcser", "rccount"]})
+        out.append({"kind": "rowcount/" + flav, "ops": [f"rcnew {flav} a=2,b=2", "rccount", "rcset a 3", "rcset b 3", "rccount", "rcser"]})
     return out
 
 
@@ -670,6 +699,9 @@ def cases(rng, tier):
     # 6. container histories
     for _ in range(240 if quick else 6000):
         yield history(rng)
+    # 7. cached row count across edits
+    for _ in range(80 if quick else 2000):
+        yield rowcount_history(rng)
 
 
 # ---------------------------------------------------------------- implementation adapter
@@ -777,12 +809,27 @@ def _err(e):
     return "ERR:" + type(e).__name__
 
 
+def _rc_col(flav, n):
+    import biotite.structure.io.pdbx as pdbx
+    return pdbx.CIFColumn([str(i) for i in range(n)]) if flav == "t" else pdbx.BinaryCIFColumn(list(range(n)))
+
+
+def _rc_rows(flav, ser):
+    """Number of rows in a serialised category (text: parse it back; binary: the rowCount field)."""
+    import biotite.structure.io.pdbx as pdbx
+    if flav == "b":
+        return int(ser["rowCount"])
+    cat = pdbx.CIFCategory.deserialize(ser)
+    return len(next(iter(cat.values())))
+
+
 def run_impl(case):
     import biotite.structure.io.pdbx as pdbx
     from biotite.structure.io.pdbx import cif as C
 
     out = []
     kind, cont = None, None
+    rc, rcflav = None, None
     for op in case["ops"]:
         w = op.split()
         try:
@@ -831,6 +878,22 @@ def run_impl(case):
                             cs.append(_optname(cn) + ":!")
                     bs.append(enc(bn) + "@" + ("_" if not cs else "/".join(cs)))
                 out.append("ok " + ("_" if not bs else "|".join(bs)))
+            elif w[0] == "rcnew":
+                cols = {k: _rc_col(w[1], int(n)) for k, n in _parse_entries(w[2])}
+                rc = pdbx.CIFCategory(cols, name="c") if w[1] == "t" else pdbx.BinaryCIFCategory(cols)
+                rcflav = w[1]
+                out.append("ok")
+            elif w[0] == "rcset":
+                rc[w[1]] = _rc_col(rcflav, int(w[2]))
+                out.append("ok")
+            elif w[0] == "rcdel":
+                del rc[w[1]]
+                out.append("ok")
+            elif w[0] == "rcser":
+                ser = rc.serialize()
+                out.append(f"ok {_rc_rows(rcflav, ser)}")
+            elif w[0] == "rccount":
+                out.append(f"ok {rc.row_count}")
             elif w[0] == "cnew":
                 kind = w[1]
                 cont = _container(kind, _parse_entries(w[2]))
@@ -1040,7 +1103,46 @@ def _container_oracle(case):
     return []
 
 
+def _rowcount_oracle(case):
+    """A category whose current columns all have n rows serialises (to n rows) whatever happened before."""
+    import biotite.structure.io.pdbx as pdbx
+    flav, rc, ref = None, None, None
+    for i, op in enumerate(case["ops"]):
+        w = op.split()
+        if w[0] == "rcnew":
+            flav = w[1]
+            ref = {k: int(n) for k, n in _parse_entries(w[2])}
+            cols = {k: _rc_col(flav, n) for k, n in ref.items()}
+            rc = pdbx.CIFCategory(cols, name="c") if flav == "t" else pdbx.BinaryCIFCategory(cols)
+        elif w[0] == "rcset":
+            rc[w[1]] = _rc_col(flav, int(w[2]))
+            ref[w[1]] = int(w[2])
+        elif w[0] == "rcdel":
+            try:
+                del rc[w[1]]
+                ref.pop(w[1])
+            except (KeyError, ValueError):
+                pass
+        elif w[0] in ("rcser", "rccount") and ref:
+            lens = list(ref.values())
+            try:
+                got = _rc_rows(flav, rc.serialize()) if w[0] == "rcser" else rc.row_count
+            except Exception as e:  # noqa: BLE001
+                got = type(e).__name__
+            if w[0] == "rcser":
+                exp = lens[0] if len(set(lens)) == 1 else "SerializationError"
+            else:
+                exp = lens[0]
+            if got != exp:
+                kind = "text" if flav == "t" else "binary"
+                return [(f"C06/container/{kind}-category/stale-row-count",
+                         f"after {case['ops'][:i]!r}: columns have lengths {lens}, {w[0]} gave {got!r}, expected {exp!r}")]
+    return []
+
+
 def oracle(case):
+    if case.get("kind", "").startswith("rowcount/"):
+        return _rowcount_oracle(case)
     if case.get("table") is not None:
         return _table_oracle(case["table"])
     if case.get("kind", "").startswith("container/"):
